@@ -136,7 +136,7 @@ def load_prop(prop_id):
 
 
 def write_evidence(prop_id, data):
-    d = os.path.join(VERIF, 'evidence')
+    d = os.environ.get('VERIF_EVIDENCE_DIR') or os.path.join(VERIF, 'evidence')
     os.makedirs(d, exist_ok=True)
     path = os.path.join(d, prop_id + '.json')
     tmp = path + '.tmp%d' % os.getpid()
@@ -148,7 +148,7 @@ def write_evidence(prop_id, data):
 
 
 def write_replay(prop_id, v):
-    d = os.path.join(VERIF, 'replays', prop_id)
+    d = os.path.join(os.environ.get('VERIF_REPLAY_DIR') or os.path.join(VERIF, 'replays'), prop_id)
     os.makedirs(d, exist_ok=True)
     rec = dict(v)
     rec['property'] = prop_id
